@@ -34,7 +34,16 @@ class C18(core.Property):
         "LWW: the Spec accepts any seen write with a maximal timestamp (writes with identical timestamps and different values are ambiguous by the property text)",
         "OR-set elements are strings in the harness (to_dict stringifies keys)",
     ]
-    hypotheses = ["LWW merge laws: CoherentTs (equal timestamps carry equal values)"]
+    hypotheses = [
+        "lww_merge_comm and the register clause of same_updates_equal_values: equal timestamps carry equal values "
+        "(LWW.Coherent / OpsCoherent); lww_merge_not_comm_incoherent and a decided example show that both fail without it; "
+        "lww_merge_assoc, lww_merge_idem and lww_spec need no hypothesis",
+        "orset_merge_idem: no live entry carries a tombstoned tag (ORSet.WF); holds in every reachable replica state "
+        "(orset_reachable_wf), fails for arbitrary values (decided example)",
+        "OR-set merge laws are extensional (ORSet.Equiv: same members of ents and of tomb, hence the same has); "
+        "the lists are used as sets and seq is the replica-local tag counter",
+        "same_updates_equal_values: 'same updates' = the knowledge sets of the two replicas have the same members (SameSet)",
+    ]
 
     # ------------------------------------------------------------------ generation
     def generate(self, rng: random.Random, i: int, tier: str) -> dict:
@@ -299,6 +308,19 @@ THEOREMS = [
     "HappyModel.C18.pn_merge_comm",
     "HappyModel.C18.pn_merge_assoc",
     "HappyModel.C18.pn_merge_idem",
+    "HappyModel.C18.orset_merge_comm",
+    "HappyModel.C18.orset_merge_assoc",
+    "HappyModel.C18.orset_merge_idem",
+    "HappyModel.C18.orset_reachable_wf",
+    "HappyModel.C18.orset_merge_has",
+    "HappyModel.C18.lww_merge_comm",
+    "HappyModel.C18.lww_merge_assoc",
+    "HappyModel.C18.lww_merge_idem",
+    "HappyModel.C18.lww_merge_not_comm_incoherent",
+    "HappyModel.C18.counter_value_spec",
+    "HappyModel.C18.orset_spec",
+    "HappyModel.C18.lww_spec",
+    "HappyModel.C18.same_updates_equal_values",
 ]
 C18.theorems = THEOREMS
 PROPERTY = C18()
